@@ -36,6 +36,13 @@ let tree_of_string s =
   else let (es, rest) = parse_entries (String.split_on_char ',' s) [] in
     if rest <> [] then failwith "unbalanced tree" else Dir es
 
+let rec triples = function
+  | fl :: size :: tree :: r ->
+    ((((fl = "mirror", size <> "-"), size = "skip"),
+      (if size = "-" || size = "skip" then Z0 else z_of_string size)), tree_of_string tree) :: triples r
+  | [] -> []
+  | _ -> failwith "gcmulti: arguments are not triples"
+
 let () =
   iter_lines (fun line ->
     match split_bar line with
@@ -46,6 +53,7 @@ let () =
           run_gc (fl = "mirror") (size <> "-") (size = "skip")
             (if size = "-" || size = "skip" then Z0 else z_of_string size)
             (tree_of_string tree)
+        | "gcmulti", l -> run_gcmulti (triples l)
         | "twpath", [p] -> run_twpath (unhex p)
         | "tilesize", [l] -> run_tilesize (z_of_string l)
         | _ -> bytes_of_string "?unknown-op" in
